@@ -233,6 +233,15 @@ Coalesce == \A w \in W : Cardinality({i \in DOMAIN shared : shared[i] = w}) + Ca
 \* (an Assert call returned, nothing consumed it since, and no Assert of that waker is still in flight: the
 \*  call that performs the enqueue may be another one than the call that returned -- see DESIGN C19 calibration)
 NBSound == "NBSound" \notin viol
+\* The same clause read literally (STRICT: completed = some Assert call of the waker returned, unconsumed), as an
+\* action property on the step in which a non-blocking Fetch reports nothing.  It does NOT hold: known finding
+\* F25 (an Assert that finds the waker already asserted returns before the Assert still in flight has queued it).
+\* NBSound above is exactly NBStrict \/ KF_F25: the strict clause may fail only if every completed waker still
+\* has an Assert in flight at that step.
+NBNothing == pcF = "L2" /\ pcF' = "idle"
+KF_F25 == \A w \in W : complete[w] => \E g \in G : T(g) = w /\ InAssert(g)
+NBStrict == [][NBNothing => \A w \in W : ~complete[w]]_vars
+NBStrictOrF25 == [][NBNothing => ((\A w \in W : ~complete[w]) \/ KF_F25)]_vars
 \* after Done returned: nothing queued, no sleep state, no waker goroutine about to write the sleeper,
 \* no waker still points to it (so each can be attached to a new sleeper by AddWaker's CAS / enqueue)
 AfterDone == (pcF = "finished") =>
